@@ -642,7 +642,9 @@ func c06Run(c core.Case, env *core.Env) core.Result {
 		res.FailReplay(fmt.Sprintf("C06/iso9660/%s/%s", rule, cause), fmt.Sprintf(f, a...), map[string]any{"opts": p.Opts, "start": p.Start, "shape": p.Shape, "nodes": len(t)}, replay)
 	}
 	size := int64(24 << 20)
-	st := monstore.NewMem(p.Start + size + 1<<20)
+	// the storage is not blank: every byte holds a non-zero pattern, as a reused image file or a partition that
+	// carried something else before; whatever Finalize does not write stays visible
+	st := monstore.NewMemFilled(p.Start+size+1<<20, uint64(c.Seed)|1)
 	err, pi := guardErr(func() error { return buildISO(st, size, p.Start, p.Opts, t) })
 	if pi != nil {
 		fail("finalize-panic", pi.Top+":"+pi.Class, "Finalize panicked: %s", pi.Msg)
@@ -759,7 +761,7 @@ func init() {
 	core.Register(&core.Check{
 		ID:          "C06",
 		Level:       "exploration",
-		Rule:        "generated workspace trees (mixed; one directory with 130-330 files; 2-40 names colliding after 8.3 truncation; depth 7-11; sizes 0,1,block-1,block,block+1,...,3 MiB; long and Unicode names incl. Rock Ridge names needing continuation areas; symlinks under Rock Ridge; steered trees in which the records of the root, of a subdirectory or of the Joliet root add up to exactly one logical block - names are grown and shrunk with the raw directory re-read after every build until the sum is exact) x {plain, Rock Ridge, Joliet, both} x block size {2048, 4096, 8192} x DeepDirectories x start {0, 1 MiB}; every file carries unique content so image files are matched to source files by content; the finalized image is walked through iso9660.Read (structure, byte-identical contents, names exact under RR/Joliet, members of the documented 8.3 rule otherwise) and through the independent reader isock over the primary volume descriptor (same files by content, extents inside the image, no overlaps); a Finalize refusal is an observation; non-trivial = tree accepted by Finalize; distinct = distinct (options, start, tree)",
+		Rule:        "generated workspace trees (mixed; one directory with 130-330 files; 2-40 names colliding after 8.3 truncation; depth 7-11; sizes 0,1,block-1,block,block+1,...,3 MiB; long and Unicode names incl. Rock Ridge names needing continuation areas; symlinks under Rock Ridge; steered trees in which the records of the root, of a subdirectory or of the Joliet root add up to exactly one logical block - names are grown and shrunk with the raw directory re-read after every build until the sum is exact) x {plain, Rock Ridge, Joliet, both} x block size {2048, 4096, 8192} x DeepDirectories x start {0, 1 MiB}, always on storage pre-filled with a non-zero pattern (a reused image file or partition); every file carries unique content so image files are matched to source files by content; the finalized image is walked through iso9660.Read (structure, byte-identical contents, names exact under RR/Joliet, members of the documented 8.3 rule otherwise) and through the independent reader isock over the primary volume descriptor (same files by content, extents inside the image, no overlaps); a Finalize refusal is an observation; non-trivial = tree accepted by Finalize; distinct = distinct (options, start, tree)",
 		Assumptions: []string{"isock (internal/isock) is an independent ECMA-119/SUSP/RRIP reader calibrated on hand-made images", "isock rules outside the statement (directory length not a block multiple, dot entries, path tables, record order, SUSP details, Joliet tree extents) are recorded, not reported", "symlinks are only put into Rock Ridge trees; Joliet names are BMP and at most 64 units"},
 		MinSigs:     map[string]int{"quick": 25, "thorough": 500},
 		NeedMarks:   []string{"mode plain", "mode rockridge", "mode joliet", "mode rr+joliet", "image inside a partition", "block 4096", "shape collisions", "shape deep", "shape flat-many", "records of a directory add up to exactly one block (primary-root)", "records of a directory add up to exactly one block (primary-sub)", "records of a directory add up to exactly one block (joliet-root)"},
